@@ -173,7 +173,8 @@ def main():
                      "with SIGALRM/SIGHUP interrupting exactly that select). non-trivial = distinct schedule / scenario" % ("capped at 150 schedules per partition in the quick tier" if c.tier == "quick" else "thorough tier: partitioned by the first three decisions, capped at 5000 schedules in each of the 27 partitions"))
     c.cov["exhaustive"] = False
     c.cov["samples"] = samples[:6] or ["(none)"]
-    c.cov["input_distribution"] = {k: v for k, v in stats.items() if k.startswith("ev_") or k.startswith("snap_") or k.startswith("daemon_")}
+    c.cov["input_distribution"] = {k: v for k, v in stats.items() if k.startswith("ev_") or k.startswith("snap_") or k.startswith("daemon_") or k.startswith("fds_")}
+    c.cov["selects_whose_nfds_and_numeric_descriptor_sets_were_compared_with_SelFds"] = int(stats.get("fds_selects_compared", 0))
     c.cov["selects_with_a_queue_of_3_or_more_entries"] = int(stats.get("snap_some_queue_holds_3_or_more", 0))
     c.cov["selects_interrupted_by_a_signal"] = int(stats.get("daemon_selects_interrupted_by_a_signal", 0))
     c.assumptions += ["the snapshot is read inside select(), i.e. after everything the main loop does before it blocks: if anything between `recent = now()` and select() rewrites a global "
